@@ -81,6 +81,7 @@ type caseT struct {
 	SameDir     bool         `json:"resume_same_dir,omitempty"`
 	RerunResume bool         `json:"rerun_with_resume"` // how a failed (not killed) index build is rerun
 	Inline      *inlineT     `json:"inline,omitempty"`
+	InFlight    *purgex.Op   `json:"in_flight,omitempty"` // upload started between the kill and the resume (all blobs written), committed after the resume
 	Post        []purgex.Op  `json:"post"`
 	Faults      []faultT     `json:"faults,omitempty"`
 }
@@ -148,6 +149,10 @@ func drawCase(t *rapid.T) caseT {
 		c.Mid = purgex.DrawOps(t, c.Shape, 0, 2, 1, "nmid")
 		c.ResumeChunk = uint64(rapid.IntRange(1, 8).Draw(t, "resume_chunk"))
 		c.SameDir = rapid.Bool().Draw(t, "same_dir")
+		if rapid.IntRange(0, 2).Draw(t, "in_flight") != 1 {
+			o := purgex.DrawUpload(t, c.Shape)
+			c.InFlight = &o
+		}
 		if mode == 7 {
 			c.Faults = append(c.Faults, drawFault(t, "resume"))
 		}
@@ -185,6 +190,7 @@ type outcomeT struct {
 	deleted      int
 	shared       bool
 	midOps       int
+	inFlight     bool
 }
 
 // OpGetShort is a Get whose stream breaks after half of the object (see purgex.ShortRead)
@@ -399,6 +405,31 @@ func runCase(c caseT, out *outcomeT) error {
 			out.excluded++
 			rr.Resume, rr.Force = false, true
 		}
+		// An upload in flight across the resume: it starts now (after the index was started), writes or re-uses
+		// all its blobs, and only commits its metadata once the resumed build is over - so the resumed scan
+		// cannot see it. Only when the interrupted run left a chunk, i.e. an index time to resume from:
+		// otherwise the "resumed" build is a new index which this upload would be in flight across the start of.
+		var held *purgex.HeldUpload
+		if c.InFlight != nil && rr.Resume {
+			chunks, _ := w.ReadIndex()
+			reuse, err := w.ReusesOrphan(*c.InFlight)
+			if err != nil {
+				return err
+			}
+			switch {
+			case len(chunks) == 0:
+			case reuse && known(KnownDedupNoTouch):
+				out.excluded++
+				stats.Count("excluded_"+KnownDedupNoTouch, 1)
+			default:
+				if held, err = w.StartHeldUpload(*c.InFlight, "in-flight across the resume"); err != nil {
+					return err
+				}
+				defer func() { _ = held.Finish() }() // never leave the goroutine parked
+				out.reuseOrphan = out.reuseOrphan || reuse
+				time.Sleep(time.Millisecond)
+			}
+		}
 		installed = w.install(faults, "resume")
 		_, oc2 := w.BuildIndex(rr)
 		installed.collect(out.faultHits)
@@ -411,6 +442,12 @@ func runCase(c caseT, out *outcomeT) error {
 			if _, oc3 := w.BuildIndex(rr); !oc3.OK() {
 				return fmt.Errorf("build-reverse-lookup --resume failed (%s) and its rerun without faults failed too: %s", oc2, oc3)
 			}
+		}
+		if held != nil {
+			if err := held.Finish(); err != nil {
+				return err
+			}
+			out.inFlight = true
 		}
 	case !oc.OK():
 		out.indexFailed = true
@@ -509,6 +546,9 @@ func describe(c caseT) string {
 	if c.Inline != nil {
 		fmt.Fprintf(&sb, "\n  during scan (call %d): %s", c.Inline.At, c.Inline.Op)
 	}
+	if c.InFlight != nil {
+		fmt.Fprintf(&sb, "\n  in flight across the resume: %s", c.InFlight)
+	}
 	if len(c.Mid) > 0 {
 		sb.WriteString("\n  mid:")
 		for _, o := range c.Mid {
@@ -543,8 +583,8 @@ func (c caseT) classes(o outcomeT) (string, bool) {
 	}
 	sort.Strings(hits)
 	nt := (o.deleted > 0 && o.shared) || o.resumed || anyHit
-	sig := fmt.Sprintf("ctx=%d crash=%s/%v resumed=%v hits=%v idxfail=%v delfail=%v reuse=%v inline=%v deleted=%s shared=%v mid=%v",
-		len(c.Shape.Repos), o.crashAt, o.crashLanded, o.resumed, hits, o.indexFailed, o.deleteFailed, o.reuseOrphan, o.inlineDone, cls(o.deleted), o.shared, o.midOps > 0)
+	sig := fmt.Sprintf("ctx=%d crash=%s/%v resumed=%v hits=%v idxfail=%v delfail=%v reuse=%v inline=%v deleted=%s shared=%v mid=%v inflight=%v",
+		len(c.Shape.Repos), o.crashAt, o.crashLanded, o.resumed, hits, o.indexFailed, o.deleteFailed, o.reuseOrphan, o.inlineDone, cls(o.deleted), o.shared, o.midOps > 0, o.inFlight)
 	return sig, nt
 }
 
@@ -587,6 +627,9 @@ func record(c caseT, o outcomeT) {
 	}
 	if o.inlineDone {
 		stats.Count("upload_during_scan", 1)
+	}
+	if o.inFlight {
+		stats.Count("upload_in_flight_across_resume", 1)
 	}
 	if o.deleted > 0 {
 		stats.Count("deleted_some", 1)
